@@ -907,6 +907,7 @@ func (c *Conn) ReadBatchWith(cfg ReadBatchConfig) *Batch {
 		topic:         c.topic,          // topic is copied to Batch to prevent race with Batch.close
 		partition:     int(c.partition), // partition is copied to Batch to prevent race with Batch.close
 		offset:        offset,
+		lastOffset:    -1, // no record batch read yet
 		highWaterMark: highWaterMark,
 		// there shouldn't be a short read on initially setting up the batch.
 		// as such, any io.EOF is re-mapped to an io.ErrUnexpectedEOF so that we
